@@ -677,6 +677,12 @@ func main() {
 							break
 						}
 					}
+					if fr := vh.DyingFrames(logf); len(fr) > 0 && vh.CodeUnderTestFrame(fr) == "" {
+						// died in harness code: never a verdict
+						run.Drop("child died in harness code")
+						run.Inconclusive("a child process died in harness code: " + fr[0])
+						break
+					}
 					run.Violate(last, "keeper-process-panicked", map[string]string{"what": what, "site": site, "scenario_kind": lastKind}, map[string]interface{}{"exit": res.ExitCode, "signal": res.Signal, "fatal": fatal, "scenario": last})
 					run.Case(vh.HashS("crash", fmt.Sprint(last)), true)
 					if last >= 0 && last+1 < jb.to {
